@@ -76,7 +76,7 @@ func init() {
 				return 0
 			}
 			v := cur.newInput(name, types.Int).(sv)
-			cur.doAssume(boolVal(smt.ULt(v.t, smt.Const(64, uint64(n)))))
+			cur.assume(rangeTerm(v, n))
 			return cur.concretizeIndex(v, n)
 		},
 		symPkg + "Concrete": func(fr *frame, args []value) value {
@@ -122,6 +122,11 @@ func init() {
 			_, msg := catchTargetPanic(fr, args[0])
 			return msg
 		},
+		symPkg + "IntMode": func(fr *frame, args []value) value {
+			cur.IntMode = args[0].(bool)
+			return nil
+		},
+		symPkg + "Overflows": func(fr *frame, args []value) value { return cur.Overflows },
 		symPkg + "NondetMaps": func(fr *frame, args []value) value {
 			cur.NondetMaps = args[0].(bool)
 			return nil
@@ -372,8 +377,7 @@ func snapshot(v value) value {
 func formatObs(v value, ev *smt.Evaluator) string {
 	switch v := v.(type) {
 	case sv:
-		u := ev.Eval(v.t)
-		return formatObs(constOfKind(u, v.k), ev)
+		return formatObs(constOfKind(evalU64(ev, v), v.k), ev)
 	case bool:
 		return fmt.Sprint(v)
 	case int, int8, int16, int32, int64, uint, uint8, uint16, uint32, uint64, uintptr:
